@@ -3,18 +3,16 @@ package c03
 
 import (
 	"encoding/json"
-	"fmt"
 	"os"
 	"sort"
-	"strings"
 	"testing"
 
 	"github.com/bmeg/grip/gdbi"
 	"pgregory.net/rapid"
 	"verif/internal/gripx"
 	"verif/internal/hist"
+	"verif/internal/histrun"
 	"verif/internal/model"
-	"verif/internal/obs"
 	"verif/internal/pbt"
 )
 
@@ -41,145 +39,22 @@ type Case struct {
 
 var caseCount int
 
-var universe = obs.Universe{VertexIDs: append(append([]string{}, hist.VIDs...), "ghost"), EdgeIDs: hist.EIDs, VLabels: hist.VLabels, ELabels: hist.ELabels, Traversals: true}
-
-func method(line string) string {
-	if strings.HasPrefix(line, "V()") || strings.HasPrefix(line, "E()") {
-		if i := strings.Index(line[3:], "("); i > 0 {
-			return line[:3+i]
-		}
-	}
-	return obs.Method(line)
-}
-
-// runHistory applies the history step by step; returns false when judging stopped at a
-// known finding.
+// runHistory applies the history step by step on the shared Badger store.
 func runHistory(t pbt.TB, c Case) {
 	pbt.Case(t)
-	db := gripx.DB(c.Driver)
-	world := hist.World{}
-	names := hist.Names{}
 	// no cleanup deletes: tombstones make every later seek slower; the store is
-	// recycled every few hundred cases instead
+	// recycled every few dozen cases instead
 	caseCount++
 	if caseCount%40 == 0 {
 		gripx.Recycle(c.Driver)
-		db = gripx.DB(c.Driver)
 	}
-	sawEdge, sawShape := false, false
-	for step, op := range c.Ops {
-		// timestamps of existing graphs before the call
-		tsBefore := map[string]string{}
-		for ln := range world {
-			if gi, err := db.Graph(names.Real(ln)); err == nil {
-				tsBefore[ln] = gi.GetTimestamp()
-			}
-		}
-		stateBefore := map[string]string{}
-		for ln, g := range world {
-			stateBefore[ln] = hist.StateText(g)
-		}
-		ex := world.Apply(op)
-		pbt.Class(t, "op:"+ex.Class)
-		if strings.Contains(ex.Class, "relabel") || strings.Contains(ex.Class, "reattach") || strings.Contains(ex.Class, "newdata") ||
-			ex.Class == "delVertex" || ex.Class == "delVertex-with-edges" || ex.Class == "delEdge" {
-			sawShape = true
-		}
-		for _, g := range world {
-			if len(g.E) > 0 {
-				sawEdge = true
-			}
-		}
-		err, panicked := hist.ApplyReal(db, names, op)
-		where := fmt.Sprintf("step %d %s", step, op)
-		if panicked {
-			pbt.Discrepancy(t, c, "panic:"+ex.Class, "%s panicked: %v", where, err)
-			return
-		}
-		if ex.MustFail && err == nil {
-			if !pbt.Discrepancy(t, c, "accepted:"+ex.Class, "%s must be rejected with an error but returned nil", where) {
-				return
-			}
-		}
-		if !ex.MustFail && err != nil && !strings.HasSuffix(ex.Class, "-absent") {
-			if !pbt.Discrepancy(t, c, "rejected:"+ex.Class, "%s returned an error: %v", where, err) {
-				return
-			}
-		}
-		// observation of every graph
-		listed := map[string]bool{}
-		for _, n := range db.ListGraphs() {
-			listed[n] = true
-		}
-		for _, ln := range hist.Graphs {
-			real := names.Real(ln)
-			g, exists := world[ln]
-			if exists != listed[real] {
-				if !pbt.Discrepancy(t, c, "ListGraphs:after-"+ex.Class, "%s: graph %s listed=%v but model says exists=%v", where, ln, listed[real], exists) {
-					return
-				}
-				continue
-			}
-			gi, gerr := db.Graph(real)
-			if exists != (gerr == nil) {
-				if !pbt.Discrepancy(t, c, "Graph():after-"+ex.Class, "%s: Graph(%s) error=%v but model says exists=%v", where, ln, gerr, exists) {
-					return
-				}
-				continue
-			}
-			if !exists {
-				continue
-			}
-			tsA := gi.GetTimestamp()
-			got := obs.OfGraph(gi, universe)
-			want := obs.OfModel(g, universe)
-			if d := obs.Diff(got, want); len(d) > 0 {
-				more := ""
-				if len(d) > 1 {
-					more = fmt.Sprintf(" (+%d more differences)", len(d)-1)
-				}
-				if !pbt.Discrepancy(t, c, method(d[0])+":after-"+ex.Class, "%s: graph %s: %s%s", where, ln, d[0], more) {
-					return
-				}
-				return // state diverged; stop judging this history
-			}
-			tsB := gi.GetTimestamp()
-			if tsA != tsB {
-				if !pbt.Discrepancy(t, c, "timestamp:changed-by-reads", "%s: graph %s: timestamp changed across pure reads (%s -> %s)", where, ln, tsA, tsB) {
-					return
-				}
-			}
-			// timestamp rule for the call itself
-			before, had := tsBefore[ln]
-			if !had {
-				continue
-			}
-			changed := stateBefore[ln] != hist.StateText(g)
-			addressed := ln == op.Graph
-			switch {
-			case addressed && err == nil && changed && tsA == before:
-				if !pbt.Discrepancy(t, c, "timestamp:unchanged-after-"+op.Kind, "%s: graph %s changed but its timestamp did not (%s)", where, ln, tsA) {
-					return
-				}
-			case !addressed && tsA != before:
-				if !pbt.Discrepancy(t, c, "timestamp:other-graph-touched-by-"+op.Kind, "%s: timestamp of unrelated graph %s changed (%s -> %s)", where, ln, before, tsA) {
-					return
-				}
-			}
-		}
-	}
-	if sawEdge && sawShape {
+	res := histrun.Run(t, c, c.Ops, &histrun.Env{DB: gripx.DB(c.Driver)})
+	if res.SawEdge && res.SawShape {
 		pbt.Nontrivial(t, histText(c.Ops))
 	}
 }
 
-func histText(ops []hist.Op) string {
-	parts := make([]string, len(ops))
-	for i, o := range ops {
-		parts[i] = o.String()
-	}
-	return strings.Join(parts, "; ")
-}
+func histText(ops []hist.Op) string { return histrun.Text(ops) }
 
 func TestReplay(t *testing.T) {
 	cf, ok := pbt.ReplayFile()
